@@ -78,7 +78,7 @@ class PolyhedralTerm(Term):
         varlist = list(self.variables.items())
         varlist.sort(key=lambda x: str(x[0]))
         res = " + ".join([str(coeff) + "*" + var.name for var, coeff in varlist])
-        res += " <= " + str(self.constant)
+        res += " <= " + str(self.constant + 0.0)
         return res
 
     def __hash__(self) -> int:
